@@ -273,6 +273,15 @@ func (req *SrvReq) Process() {
 		}
 	}
 
+	if tc.Fid == NOFID {
+		switch tc.Type {
+		case Twalk, Topen, Tcreate, Tread, Twrite, Tclunk, Tremove, Tstat, Twstat:
+			/* these need a fid, and NOFID never is one */
+			req.RespondError(Eunknownfid)
+			return
+		}
+	}
+
 	switch req.Tc.Type {
 	default:
 		req.RespondError(&Error{"unknown message type", EINVAL})
